@@ -687,6 +687,28 @@ def json_guard_py(a, b):
     return True
 
 
+def keys_path_ok_py(a, b):
+    """document-level guard of C20_patch_reproduces_json_docs_pickled: no key with both quote characters, none ending in U+1D1C0"""
+    return all(not ("'" in k and '"' in k) and not k.endswith(ESC) for doc in (a, b) for k in keys_of(doc))
+
+
+def payload_case(a, b, tag):
+    """(coq expr, expected, tag): [keys_path_okb a && keys_path_okb b ; keys ok -> delta_okb d && wfp (pv_of_delta d)]
+    for d = the model delta of (a, b) under the CLI's configuration with the oracle values recorded here
+    (difflib opcodes, unified diffs, constructor calls)"""
+    from deepdiff import DeepDiff
+    from harness import values as V, diffcommon as D, deltacommon as DC
+    tree = DeepDiff(copy.deepcopy(a), copy.deepcopy(b), view="tree")
+    conv = DC.conv_table(DC.type_change_pairs(tree))
+    ops = D.coq_ops_table(D.opcode_table(a, b))
+    ta, tb = V.to_coq(a), V.to_coq(b)
+    expr = ("(let d := mk_delta_json hatom_deep (tbl_udiff %s) (tbl_ops %s) %s (tbl_conv %s) %s %s in "
+            "let k := keys_path_okb %s && keys_path_okb %s in "
+            "SL [sx_bool k; sx_bool (implb k (delta_okb d && wfp (pv_of_delta d)))])") % (
+        D.coq_udiff_table(D.udiff_table(a, b)), ops, D.coq_cfg(False, 0.33, True), conv, ta, tb, ta, tb)
+    return (expr, [keys_path_ok_py(a, b), True], dict(tag, hypothesis="keys_path_okb -> delta_okb && wfp"))
+
+
 # ---- the direct oracle: the property statement on the implementation, no reference to the model ----
 
 def oracle_reference(a_text, b_text, keep, o):
@@ -817,7 +839,7 @@ def pair_task(args):
     rng = random.Random(seed)
     work = tempfile.mkdtemp(prefix="p%d_" % idx, dir=scratch)
     b_text = json.dumps(b_doc, indent=2) + "\n"     # never the canonical text either
-    res = {"cases": [], "fails": [], "counts": {}, "seen": [], "samples": [], "guard_cases": []}
+    res = {"cases": [], "fails": [], "counts": {}, "seen": [], "samples": [], "guard_cases": [], "payload_cases": []}
 
     def count(k, n=1):
         res["counts"][k] = res["counts"].get(k, 0) + n
@@ -837,6 +859,11 @@ def pair_task(args):
     count("json_guard:" + {True: "holds", False: "fails", None: "outside_universe"}[guard])
     if guard is not None:
         from harness import values
+        try:
+            res["payload_cases"].append(payload_case(a_loaded, b_loaded, base_case))
+            count("payload_guard:keys_ok" if keys_path_ok_py(a_loaded, b_loaded) else "payload_guard:keys_K5_K6")
+        except Exception as e:       # helper of another block failed on this pair: visible, not fatal
+            count("payload_case_error:" + type(e).__name__)
         res["guard_cases"].append(("sx_bool (json_guardsb ex_cfg %s %s)" % (values.to_coq(a_loaded), values.to_coq(b_loaded)),
                                    guard, dict(base_case, hypothesis="json_guardsb")))
     ida = 1
@@ -1093,6 +1120,10 @@ def run(ctx):
     collect(ctx, results, "c20_cli")
     gcases = [g for r in results for g in r.get("guard_cases", [])]
     ctx.coq_cases("c20_json_guards", GUARD_HEADER, gcases, shard=150, label="json_guardsb on the generated documents")
+    pcases = [g for r in results for g in r.get("payload_cases", [])]
+    from harness import deltacommon as DC
+    ctx.coq_cases("c20_payload_guards", DC.HDR + "\nFrom DD Require Import Delta.DeltaChain Pickle.Codec Pickle.DeltaCodec Cli.JsonDocs Cli.JsonPickle.",
+                  pcases, shard=100, label="keys_path_okb -> delta_okb && wfp on the generated documents")
     alias_witness(ctx)
     collect(ctx, [rd], "c20_save_direct")
     ctx.note("fault_points", ["%s/%s" % p for p in POINTS])
